@@ -1676,6 +1676,12 @@ func (r *RIBHolder) DeleteMPLS(e *aftpb.Afts_LabelEntryKey) (bool, *aft.Afts_Lab
 		return false, nil, fmt.Errorf("unsupported label type %T, only uint64 labels are supported, %v", e, e)
 	}
 
+	if e.GetLabelUint64() > 0xFFFFFFFF {
+		// Labels are stored as uint32 values, a larger value can never be installed and
+		// must not alias an installed label when it is truncated below.
+		return false, nil, fmt.Errorf("invalid MPLS label %d, out of range", e.GetLabelUint64())
+	}
+
 	lbl := uint32(e.GetLabelUint64())
 
 	de := r.retrieveMPLS(lbl)
